@@ -97,6 +97,17 @@ def call_scenario(target, kernel_attr, mode, quant, use_bias, scale, depthwise):
         ip.assume(conv(inv * k) == inv * conv(k))
         ip.assume(conv(k * inv) == inv * conv(k))
     s.claim("fold_q" if quant else "fold_noq", z3.Or(*goals) if goals else False)
+    # every convolution the layer performs (the one feeding the statistics and the one producing the output) carries the
+    # layer's own hyper-parameters
+    want = {n: repr(lay.attrs[n]) for n in ("strides", "padding", "dilation_rate", "data_format") if n in lay.attrs}
+    bad = []
+    for (kind, key) in L._LIN_FUNS:
+      for n, v in want.items():
+        if ("('%s', %r)" % (n, v)) not in key and ("('%s', \"%s\")" % (n, v)) not in key:
+          bad.append("%s call without %s=%s: %s" % (kind, n, v, key[:200]))
+    if bad:
+      s.info["raised"] = "; ".join(bad[:3])
+    s.claim("conv_hyper_parameters", bool(L._LIN_FUNS) and not bad)
     return s
   return scenario
 
